@@ -547,3 +547,37 @@ Proof.
   - intros a b c [A1 A2] [B1 B2]. split; eapply incl_tran; eassumption.
   - intros o e sender fs m s s' out _ H. eapply execute_used_mono, H.
 Qed.
+
+(** ** Claimed once, for good — also across transactions with re-entry (C03)
+
+    A withdrawn bucket id has rank 2 and ranks never decrease along any history of re-entrant
+    transactions, while a withdrawal needs rank 1: no later state accepts a second withdrawal
+    of it, whatever happened in between and whoever asks. *)
+Theorem rrun_brank_mono tx w id :
+  Inv (market w) -> (brank (market w) id <= brank (market (rrun w tx)) id)%nat.
+Proof.
+  intros I. apply (rrun_R (fun s s' => (brank s id <= brank s' id)%nat)); try assumption.
+  - intros s. lia.
+  - intros a b c H1 H2. lia.
+  - intros o e sender fs m s s' out Is H. eapply execute_brank_mono; eassumption.
+Qed.
+
+Theorem withdrawn_bucket_stays_withdrawn tx w id o e sender fs :
+  Inv (market w) -> (2 <= brank (market w) id)%nat ->
+  is_ok (execute o e sender fs (RemoveBucket id) (market (rrun w tx))) = false.
+Proof.
+  intros I H2. pose proof (rrun_brank_mono tx w id I) as Hm. pose proof (rrun_Inv tx w I) as I'.
+  destruct (execute o e sender fs (RemoveBucket id) (market (rrun w tx))) as [[s' out]|] eqn:E; [|reflexivity].
+  destruct (remove_brank _ _ _ _ _ _ _ _ I' E) as [E1 _]. lia.
+Qed.
+
+(** The same for listings: a listing id that left the store — withdrawn by its buyer or deleted by
+    its owner — has rank 4, an exit needs rank 1..3: no later state accepts another exit of it. *)
+Theorem exited_listing_stays_exited tx w id o e sender fs m :
+  Inv (market w) -> (4 <= lrank (market w) id)%nat -> exits_l_b m id = true ->
+  is_ok (execute o e sender fs m (market (rrun w tx))) = false.
+Proof.
+  intros I H4 Hx. pose proof (rrun_rank_mono tx w id I) as Hm. pose proof (rrun_Inv tx w I) as I'.
+  destruct (execute o e sender fs m (market (rrun w tx))) as [[s' out]|] eqn:E; [|reflexivity].
+  destruct (exit_rank _ _ _ _ _ _ _ _ _ I' E Hx) as [E1 _]. lia.
+Qed.
